@@ -6,6 +6,7 @@ mod host;
 mod judge;
 mod oracle;
 mod rng;
+mod surface;
 mod worlds;
 
 use engine::{Agg, Known, ReplayFile, World};
@@ -206,6 +207,10 @@ fn main() {
             check(prop, &tier, runs)
         }
         "selftest" => selftest(),
+        "surface" => {
+            surface::print_surface();
+            0
+        }
         "traces" => {
             // axsim traces <world> <prop> <runs>: one line per run, for the cross-process determinism test
             let world = args.get(2).cloned().unwrap_or_default();
